@@ -39,6 +39,8 @@ REACTIONS = [
     ("nak", "deadline", "coinc"),
     # just ahead of the deadline: the longest measured round trip the adaptive timeout can be fed with
     ("ack", "almost", "slow"), ("nak", "almost", "slow"),
+    # a NAK whose ackNum covers the outstanding frame (the NCP took the frame and rejects something later): acknowledges it
+    ("nak-covering", "now", "stale"),
 ]
 ALMOST = 0.01
 BUDGET_DEFAULT = {"slow": 1, "stale": 1, "coinc": 1, "data": 1, "rstack": 1, "cancel": 0, "hreset": 0}
@@ -260,6 +262,8 @@ class World:
             return [ref_ash.enc_ack((f + 4) % 8)]
         if name == "nak":
             return [ref_ash.enc_nak(f)]
+        if name == "nak-covering":
+            return [ref_ash.enc_nak((f + 1) % 8)]
         if name == "data":
             fr = ref_ash.enc_data(self.ncp_frm, 0, (f + 1) % 8, b"\x01\x02\x03\x04")
             return [fr]
@@ -279,7 +283,7 @@ class World:
         """Update the monitor for frames about to be delivered."""
         now = self.loop.time()
         c = self.cur
-        if name in ("ack", "data"):
+        if name in ("ack", "data", "nak-covering"):
             if not at_deadline:
                 c.covered_at = now
             else:
@@ -339,7 +343,7 @@ class World:
         self._scan_up()
         c = self.cur
         # a covering acknowledgement delivered ahead of the deadline must complete the send now
-        if name in ("ack", "data") and when != "deadline" and cur0 is not None and cur0.covered_at is not None:
+        if name in ("ack", "data", "nak-covering") and when != "deadline" and cur0 is not None and cur0.covered_at is not None:
             if cur0.idx not in self.outcomes:
                 self._v("covering acknowledgement delivered before the timeout but the send did not complete")
         if name.startswith("error") or name == "nak+error":
